@@ -78,10 +78,12 @@ Proof. vm_compute. reflexivity. Qed.
 (* side conditions of the parser theorems hold for the generated table *)
 Theorem C16_table_ok_bounded : table_ok PT = true.
 Proof. vm_compute. reflexivity. Qed.
+Print Assumptions C16_table_ok_bounded.
 
 Theorem C16_prefix_levels_disjoint_bounded :
   check_level_disjoint code_prec productions = true.
 Proof. vm_compute. reflexivity. Qed.
+Print Assumptions C16_prefix_levels_disjoint_bounded.
 
 (* ------------------------------------------------------------------ *)
 (* prec_determines_tree (infix / prefix / postfix operators, parentheses,
@@ -109,6 +111,7 @@ Theorem C16_stops_reads_levels : forall t c a lv a' lv',
   tok_stops PT (bind_of (a', lv')) t = true <->
   (match a' with RightA => (lv < lv')%N | _ => (lv <= lv')%N end).
 Proof. exact (stops_infix_level PT). Qed.
+Print Assumptions C16_stops_reads_levels.
 
 (* non-vacuity: `[] a U b /\ c` groups as ([] (a U b)) /\ c *)
 Definition ex_s : stree :=
@@ -332,6 +335,7 @@ Definition doc_op_types : list string :=
 Theorem C16_doc_tables_agree_bounded :
   tables_agree PT PTdoc doc_op_types ["COLON"] = true.
 Proof. vm_compute. reflexivity. Qed.
+Print Assumptions C16_doc_tables_agree_bounded.
 
 (* for EVERY surface tree s over the documented operators (and quantifiers)
    that groups them as the DOCUMENTED precedence/associativity list demands,
@@ -451,6 +455,7 @@ Theorem C16_lexer_table_ok_bounded :
   lex_table_ok lex_rules = true /\ ignore_ok lex_ignore = true
   /\ is_ignored lex_ignore " "%char = true.
 Proof. vm_compute. repeat split. Qed.
+Print Assumptions C16_lexer_table_ok_bounded.
 
 (* lex_rendered: a string that is a sequence of lexemes (each one delivered
    as its token when followed by the next character, as decided from the
